@@ -161,12 +161,31 @@ pub fn c18_q_other_thread_unaffected() {
     kani::cover!(true, "ran");
 }
 
+/// Mutant twin (cheap: same shape as `c18_q_other_thread_unaffected`): FALSE claim "a pushed traceparent is visible on the other
+/// harness thread" - must FAIL.
 #[kani::proof]
 #[kani::unwind(13)]
 #[kani::stub(emit::span::TraceId::try_from_hex, trace_hex_unreachable)]
 #[kani::stub(emit::span::SpanId::try_from_hex, span_hex_unreachable)]
 #[kani::stub(emit_core::value::Value::parse, parse_unreachable)]
-pub fn c18_w_twin_sampler_runs_for_children() {
+pub fn c18_w_twin_traceparent_leaks_to_other_thread() {
+    let tp = Traceparent::new(TraceId::from_u128(7), SpanId::from_u64(9), TraceFlags::SAMPLED);
+    tp.push().call(|| {
+        unsafe { emit_traceparent::VERIF_THREAD = 2; }
+        let other = current();
+        unsafe { emit_traceparent::VERIF_THREAD = 0x5EED_0000_0000_0001; }
+        assert!(other.trace == 7, "FALSE: the other thread sees the pushed traceparent");
+    });
+}
+
+/// NOT REGISTERED (`_x_`): as a twin it must run to a FAILED verdict, and the span event through the sampling filter in the std
+/// build did not get there within 4000 s in the measured thorough run (9.5 GB).
+#[kani::proof]
+#[kani::unwind(13)]
+#[kani::stub(emit::span::TraceId::try_from_hex, trace_hex_unreachable)]
+#[kani::stub(emit::span::SpanId::try_from_hex, span_hex_unreachable)]
+#[kani::stub(emit_core::value::Value::parse, parse_unreachable)]
+pub fn c18_x_twin_sampler_runs_for_children() {
     // false claim: the sampler is consulted for a child span inside an active trace
     let calls = Cell::new(0u32);
     let filter = TraceparentFilter::new_with_sampler(|_c: &SpanCtxt| { calls.set(calls.get() + 1); true });
